@@ -65,6 +65,11 @@ CHECKS['C15'] = dict(
    note='theorems over the language-graph model (subtype = closure of extends, association lists, lookup, type soundness) are in progress; KF-C15-1 (same-signature associations merged) is a recorded finding replayed on every run',
    technique='Lean 4 model + differential correspondence (theorems pending)',
    design='C15')
+CHECKS['C16'] = dict(
+   text='Partial. Lean side (Props/C16.lean, re-using C02/C03): generation is a function of the ordered inputs, node ids are positions, node order is model order x fold order, and the step lookups of any number of generations leave the loaded specification unchanged and return the folded steps. Execution side: every (language, model) pair is generated twice in one process, after an analysis, through create_attack_graph from a .mar and a printed .mal with json and yml model files, and in fresh interpreters under PYTHONHASHSEED 0 / 1 / 4242 / random; all serialisations must be identical to each other and to the single answer of the Lean model; model serialisation and specification are compared before/after; node objects of two graphs must be disjoint.',
+   note='partial: determinism across processes / hash seeds and through the file-based wrapper is established by execution only (a pure model cannot exhibit CPython hashing); edge order and multiplicity are not compared with the model',
+   technique='Lean 4 proof of the model-side halves + differential execution across processes and hash seeds',
+   design='C16')
 NOT_YET = {}
 PENDING = {'C15', 'C10', 'C14', 'C04', 'C17'}   # harness exists, theorems in progress: not claimed until they check
 
